@@ -65,6 +65,12 @@ def units(tier):
     if not os.path.exists(lp) or open(lp).read() != lc:
         open(lp, "w").write(lc)
     EXTRACTION["c20x"] = {"functions": len(ex.order), "differential": "not run (boost.python link)"}
+    PY = os.path.join(REPO, "src/python/PyImath")
+
+    def RP(which, nb):
+        return {"src": os.path.join(VERIF, "harness", "c20_replay.cpp"), "lang": "c++", "libs": ["-lboost_python311", "-lpython3.11"],
+                "cxx": [os.path.join(PY, f) for f in ("PyImathTask.cpp", "PyImathUtil.cpp", "PyImathFixedArray.cpp")],
+                "includes": [PY, os.path.join(REPO, "src/Imath"), "/usr/include/python3.11"], "flags": ['-DVF_WHICH="%s"' % which, "-DVF_NB=%d" % nb]}
     B = "array length <= 8 (harness buffers); the loop is unwound 9 times with unwinding assertions, complete for that length"
     us = [
         Unit("c20.match_lengths", H, "h_match_lengths", enforce=[ex.names[ALIASES["match_lengths"]]], includes=[GEN], backend="cvc5", functions=[ALIASES["match_lengths"]], no_checks=True,
@@ -72,19 +78,19 @@ def units(tier):
     ]
     for k, what in (("k2dd", "VectorizedOperation2, direct result and arguments"), ("k2md", "VectorizedOperation2, first argument masked"), ("k1m", "VectorizedOperation1, masked result")):
         us.append(Unit("c20." + k, H, "h_" + k, includes=[GEN], backend="cvc5", mode="ABS", functions=[ALIASES[k + "_execute"]], no_checks=True, timeout=900,
-                       bounded=B if k != "k1m" else B.replace("<= 8", "<= 4"), defines=["NB=4"] if k == "k1m" else [],
+                       bounded=B if k != "k1m" else B.replace("<= 8", "<= 4"), defines=["NB=4"] if k == "k1m" else [], replay=RP(k, 4 if k == "k1m" else 8),
                        cbmc_flags=["--unwind", "10", "--no-signed-overflow-check", "--object-bits", "10"],
                        clause="%s: execute(start,end) writes exactly the selected result positions with apply of the corresponding arguments; frame" % what))
     for k, what, nb in (("kv1", "VectorizedVoidOperation1 (in-place op, direct accessors)", 8), ("kmv1", "VectorizedMaskedVoidOperation1 (in-place op on a masked reference, argument of the unmasked length)", 4)):
         us.append(Unit("c20." + k, H, "h_" + k, includes=[GEN], backend="cvc5", mode="ABS", functions=[ALIASES[k + "_execute"]], no_checks=True, timeout=900,
-                       bounded=B.replace("<= 8", "<= %d" % nb), defines=["NB=%d" % nb], cbmc_flags=["--unwind", "10", "--no-signed-overflow-check", "--object-bits", "10"],
+                       bounded=B.replace("<= 8", "<= %d" % nb), defines=["NB=%d" % nb], replay=RP(k, nb), cbmc_flags=["--unwind", "10", "--no-signed-overflow-check", "--object-bits", "10"],
                        clause="%s: execute(start,end) updates exactly the selected positions with apply(self, matching argument element); frame" % what))
     us.append(Unit("c20.k2dd.loopcontract", H, "h_k2dd_loop", includes=[GEN], backend="cvc5", mode="ABS", functions=[ALIASES["k2dd_execute"]], no_checks=True, timeout=900,
-                   loop_contracts=True, defines=["VF_LOOPCONTRACT"], cbmc_flags=["--no-signed-overflow-check", "--object-bits", "10"],
+                   loop_contracts=True, defines=["VF_LOOPCONTRACT"], replay=RP("k2dd_loop", 8), cbmc_flags=["--no-signed-overflow-check", "--object-bits", "10"],
                    clause="VectorizedOperation2 (direct accessors): loop contract (invariant with ghost index, assigns, decreases) closes the loop for arrays of any length up to 10^6: "
                           "result[k] == apply(args[k]) inside [start,end), untouched outside, arguments never written; termination by the variant end - i",
                    assumptions=["the loop contract text is inserted into the extracted C by c20.py (the repository file is not edited)"]))
-    us.append(Unit("c20.partition", H, "h_partition", includes=[GEN], backend="cvc5", mode="ABS", functions=[ALIASES["k2dd_execute"]], no_checks=True, bounded=B, timeout=900,
+    us.append(Unit("c20.partition", H, "h_partition", includes=[GEN], backend="cvc5", mode="ABS", functions=[ALIASES["k2dd_execute"]], no_checks=True, bounded=B, timeout=900, replay=RP("partition", 8),
                    cbmc_flags=["--unwind", "10", "--no-signed-overflow-check", "--object-bits", "10"],
                    clause="partition lemma on the real kernel: two sub-ranges in either order == one call over the union"))
     return us
